@@ -1,6 +1,7 @@
 from vdriver import Job
+from props import seqcases
 
-LEVEL = "proof"
+LEVEL = "other"
 TECHNIQUE = "CBMC code contracts (DFCC, loop contracts) on hash_data/memswap/Int/Float/String hash+assign; harness proofs through the real dispatch"
 LEVEL_TEXT = "placeholder"
 NOTE = "placeholder"
@@ -34,4 +35,5 @@ def jobs(tier):
     for n in lens:
         J.append(Job("C10.hash_data.lemma.len%d" % n, "C10", "K3", "Hash/lemma_hash_data.c", "h_hash_data_lemma", ["hash_data"],
                      defines=["LEN=%d" % n], unwind=n + 2, group="C10.hash_data.lemma", bound="buffer length <= 2 (enumerated; longer lengths undecided: multiplier miter)", case="len=%d" % n))
+    J += seqcases.array_jobs(tier, "C10")
     return J
